@@ -118,6 +118,13 @@ func (v *Version) String() string {
 	return v.original
 }
 
+// IsPrerelease reports whether the version is a pre-release (a, b, c, rc,
+// alpha, beta) or a development release, as PEP 440 defines it. A post-release
+// or a local version label alone does not make a version a pre-release.
+func (v *Version) IsPrerelease() bool {
+	return v.prerelease != "" || v.dev != -1
+}
+
 // Compare compares this version with another PyPI version according to PEP 440
 func (v *Version) Compare(other *Version) int {
 	if v.epoch != other.epoch {
